@@ -1,4 +1,4 @@
 \* every quadrilateral on the 5x5 lattice of a 2x2-pixel grid, all flags, one level
-CONSTANTS S = 2  N = 2  Ks = {0}  Shape = "quad"  InputPolys <- MCInputs  Impl = "reference"
+CONSTANTS S = 2  N = 2  Ks = {0}  Shape = "quad"  InputPolys <- MCInputs  Impl = "code"
 SPECIFICATION MCSpec
 INVARIANTS C06_Total C09_Reject C01_NoCrossing C05_WellFormed C04_VerticesAreCentres C07C08_FunctionOfLevel C18_AreaPreserved
